@@ -4,6 +4,7 @@ package main
 
 import (
 	"fmt"
+	"go/types"
 	"os"
 	"path/filepath"
 	"regexp"
@@ -51,6 +52,11 @@ type FuncContract struct {
 	Split      []string
 	Pure       bool
 	Lemmas     []Clause
+	Refines    string     // "" | "functype" | "iface": synthesized refinement contract
+	RefOf      string     // key of the refined contract
+	IfaceType  types.Type // for iface refinements
+	ParamNames []string   // interface method parameter names
+	Verify     []string   // properties under which support obligations are checked explicitly
 }
 
 type Pred struct {
@@ -75,6 +81,7 @@ type DB struct {
 	SpecFns map[string]*SpecFn
 	Axioms  []Clause
 	Files   []string
+	patKeys []string
 }
 
 type SpecFn struct {
@@ -122,7 +129,7 @@ func (db *DB) loadContractFile(path, pkgPath string) error {
 	keywords := map[string]bool{"func": true, "loop": true, "mode": true, "requires": true, "ensures": true, "invariant": true,
 		"modifies": true, "safety": true, "trusted": true, "ghost-entry": true, "pred": true, "ghost": true, "template": true,
 		"end": true, "iface": true, "functype": true, "decreases": true, "inline": true, "specfn": true, "axiom": true,
-		"split": true, "free-ensures": true, "free-requires": true, "lemma": true, "pure": true, "free-invariant": true}
+		"split": true, "verify": true, "free-ensures": true, "free-requires": true, "lemma": true, "pure": true, "free-invariant": true}
 	for _, l := range strings.Split(string(raw), "\n") {
 		t := strings.TrimSpace(l)
 		if isGo {
@@ -238,6 +245,9 @@ func (db *DB) loadContractFile(path, pkgPath string) error {
 				return fmt.Errorf("%s: loop key needs #n: %q", path, rest)
 			}
 			n, err := strconv.Atoi(rest[i+1:])
+			if rest[i+1:] == "*" {
+				n, err = -1, nil
+			}
 			if err != nil {
 				return fmt.Errorf("%s: %v", path, err)
 			}
@@ -260,6 +270,8 @@ func (db *DB) loadContractFile(path, pkgPath string) error {
 			cur.Pure = true
 		case "split":
 			cur.Split = append(cur.Split, rest)
+		case "verify":
+			cur.Verify = append(cur.Verify, tags...)
 		case "safety":
 			cur.Safety = append(cur.Safety, tags...)
 			cur.HasSafety = true
@@ -436,4 +448,19 @@ func hasTag(tags []string, t string) bool {
 		}
 	}
 	return false
+}
+
+func (db *DB) patternKeys() []string {
+	if db.patKeys == nil {
+		db.patKeys = []string{}
+		for k := range db.Funcs {
+			if strings.Contains(k, "*") && !strings.Contains(k, "(*") {
+				db.patKeys = append(db.patKeys, k)
+			} else if strings.Count(k, "*") > strings.Count(k, "(*") {
+				db.patKeys = append(db.patKeys, k)
+			}
+		}
+		sort.Strings(db.patKeys)
+	}
+	return db.patKeys
 }
